@@ -17,6 +17,7 @@ package main
 
 import (
 	"bytes"
+	"compress/gzip"
 	"encoding/json"
 	"errors"
 	"fmt"
@@ -65,6 +66,11 @@ type Case struct {
 	Doc   *Doc   `json:"doc"`
 	H     int    `json:"h,omitempty"`    // history id (run mode): consecutive cases with the same h > 0 share one object
 	Pair  string `json:"pair,omitempty"` // "req" / "resp": request and response body of one generateHAR call
+	// transport (exporter entries): Content-Encoding header value ("" = no header), the header's spelling, and how the JSON
+	// text travels: "plain" (as is) or "gzip" (really gzip-compressed)
+	Enc     string `json:"enc,omitempty"`
+	EncName string `json:"enc_name,omitempty"`
+	Wire    string `json:"wire,omitempty"`
 }
 
 type Leaf struct {
@@ -320,7 +326,8 @@ func compare(d *Doc, out any, path []string, leaves *[]Leaf, shape *string) {
 
 // legacy runs the real HARGeneratorPlugin.GenerateHAR (legacy diagnosis exporter) with the document as request and as
 // response body; exclusions go to the list of the body under test, those tagged "plain_other" to the other list.
-func legacy(obf obfuscation.Obfuscator, c Case, text string, excl []string) (string, error) {
+func legacy(obf obfuscation.Obfuscator, p *prepared) (string, error) {
+	c, excl := p.c, p.excl
 	mine, other := []string{}, []string{}
 	for i, x := range c.Excl {
 		if x.N == "plain_other" {
@@ -341,9 +348,9 @@ func legacy(obf obfuscation.Obfuscator, c Case, text string, excl []string) (str
 	}
 	plugin := diagnoses.NewHARGeneratorPlugin(clock.NewMockClock(), obf)
 	req := lunarMessages.OnRequest{ID: "t", SequenceID: "t", Method: "POST", Scheme: "https", URL: "api.test/users/1",
-		Headers: map[string]string{"content-type": "application/json"}, Body: text}
+		Headers: p.encHeaders(map[string]string{"content-type": "application/json"}, false), Body: p.body}
 	resp := lunarMessages.OnResponse{ID: "t", SequenceID: "t", Method: "POST", URL: "api.test/users/1", Status: 200,
-		Headers: map[string]string{"content-type": "application/json"}, Body: text}
+		Headers: p.encHeaders(map[string]string{"content-type": "application/json"}, false), Body: p.body}
 	h, err := plugin.GenerateHAR(req, resp, tree, cfg)
 	if err != nil {
 		return "", err
@@ -365,8 +372,34 @@ func legacy(obf obfuscation.Obfuscator, c Case, text string, excl []string) (str
 // prepared is a case rendered to text
 type prepared struct {
 	c    Case
-	text string
+	text string // the JSON text of the document
+	body string // the bytes handed to the exporter (text, or its gzip compression)
 	excl []string
+}
+
+func gz(s string) string {
+	var b bytes.Buffer
+	w := gzip.NewWriter(&b)
+	if _, err := w.Write([]byte(s)); err != nil {
+		vh.Die("gzip: %v", err)
+	}
+	w.Close()
+	return b.String()
+}
+
+// encHeaders adds the Content-Encoding header of the case to a header map
+func (p *prepared) encHeaders(h map[string]string, lower bool) map[string]string {
+	if p.c.Enc != "" {
+		name := p.c.EncName
+		if name == "" {
+			name = "Content-Encoding"
+		}
+		if lower {
+			name = strings.ToLower(name)
+		}
+		h[name] = p.c.Enc
+	}
+	return h
 }
 
 func prepare(c Case) *prepared {
@@ -382,12 +415,21 @@ func prepare(c Case) *prepared {
 		}
 		c.Excl[i].Raw = nil
 	}
-	return &prepared{c: c, text: b.String(), excl: excl}
+	if c.Wire == "" {
+		c.Wire = "plain"
+	}
+	p := &prepared{c: c, text: b.String(), excl: excl}
+	p.body = p.text
+	if c.Wire == "gzip" {
+		p.body = gz(p.text)
+	}
+	return p
 }
 
-func mockStream(reqBody, respBody string) public_types.APIStreamI {
+func mockStream(req, resp *prepared) public_types.APIStreamI {
 	return test_utils.NewMockAPIStream("https://api.test/users/1?id=2",
-		map[string]string{"authorization": "Bearer t"}, map[string]string{"content-type": "application/json"}, reqBody, respBody)
+		req.encHeaders(map[string]string{"authorization": "Bearer t"}, true),
+		resp.encHeaders(map[string]string{"content-type": "application/json"}, true), req.body, resp.body)
 }
 
 var obf = obfuscation.Obfuscator{Hasher: hasher}
@@ -398,9 +440,9 @@ func call(p *prepared) (string, error) {
 	case "json":
 		return obf.ObfuscateJSON(p.text, p.excl)
 	case "har_request", "har_response":
-		return harcollector.VerifObfuscateBody(p.excl, mockStream(p.text, p.text), p.text, p.c.Entry == "har_response"), nil
+		return harcollector.VerifObfuscateBody(p.excl, mockStream(p, p), p.text, p.c.Entry == "har_response"), nil
 	case "legacy_request", "legacy_response":
-		return legacy(obf, p.c, p.text, p.excl)
+		return legacy(obf, p)
 	}
 	vh.Die("unknown entry %q", p.c.Entry)
 	return "", nil
@@ -416,11 +458,18 @@ func short(s string) string {
 // project builds the event of one call: the real output compared leaf by leaf with the input document
 func project(p *prepared, outText string, err error) vh.Ev {
 	c := p.c
-	ev := vh.Ev{"ev": "obf", "id": c.ID, "h": c.H, "entry": c.Entry, "excl": c.Excl, "excl_strings": p.excl, "in": short(p.text), "out": short(outText)}
+	ev := vh.Ev{"ev": "obf", "id": c.ID, "h": c.H, "entry": c.Entry, "excl": c.Excl, "excl_strings": p.excl, "in": short(p.text),
+		"out": short(strconv.QuoteToASCII(outText)), "enc": c.Enc, "wire": c.Wire}
+	if c.Wire == "plain" {
+		ev["out"] = short(outText)
+	}
 	leaves := []Leaf{}
 	shape := "same"
 	if err != nil {
 		shape = "error: " + err.Error()
+	} else if outText == "" || outText == hasher.HashBytes([]byte(p.body)) || outText == hasher.HashBytes([]byte(p.text)) {
+		// nothing of the body exported: empty, or the production hash of the whole body (as received / as text)
+		shape = "opaque"
 	} else {
 		dec := json.NewDecoder(strings.NewReader(outText))
 		dec.UseNumber()
@@ -466,12 +515,12 @@ func run(cases []Case, tr *vh.Trace) {
 			}
 			q := prepare(cases[i+1])
 			i++
-			reqOut, respOut, err := harcollector.VerifGenerateHARBodies(p.excl, mockStream(p.text, q.text))
+			reqOut, respOut, err := harcollector.VerifGenerateHARBodies(p.excl, mockStream(p, q))
 			tr.Add(project(p, reqOut, err))
 			tr.Add(project(q, respOut, err))
 		case c.H > 0 && (c.Entry == "har_request" || c.Entry == "har_response"):
 			if har == nil {
-				har = harcollector.VerifNewBodyObfuscator(p.excl, mockStream(p.text, p.text))
+				har = harcollector.VerifNewBodyObfuscator(p.excl, mockStream(p, p))
 			}
 			var out string
 			if c.Entry == "har_response" {
